@@ -147,6 +147,7 @@ func (x *Exec) freshResult(st *State, hint string, res *types.Tuple) *Val {
 }
 
 func (x *Exec) ghostCall(st *State, name string, args []*Val) {
+	name = canonCall(name)
 	x.sinkGuards(st, name, args)
 	x.ghostCount(st, name, args)
 }
@@ -154,6 +155,7 @@ func (x *Exec) ghostCall(st *State, name string, args []*Val) {
 // ghostCount records a call (counter, last arguments) without checking sink guards: calls by
 // contract check their guards before the callee's frame is havoc'd.
 func (x *Exec) ghostCount(st *State, name string, args []*Val) {
+	name = canonCall(name)
 	k := "ncalls:" + name
 	cur := st.ghost[k]
 	if cur == nil {
@@ -185,6 +187,7 @@ func (x *Exec) ghostRet(st *State, name string, res *Val) {
 	if res == nil {
 		return
 	}
+	name = canonCall(name)
 	// scalars are recorded as they are; an interface result (typically an error) is recorded by
 	// its dynamic type tag (0 = nil), a pointer result by its object identity (0 = nil)
 	rec := func(i int, f *Val) {
@@ -1007,8 +1010,9 @@ func (x *Exec) sinkGuards(st *State, name string, args []*Val) {
 	defer func() { x.sinkArgs = nil }()
 	con := st.frames[0].con
 	hit := false
+	name = canonCall(name)
 	for _, cl := range con.Clauses {
-		if cl.Kind != "sink" || cl.Name != name {
+		if cl.Kind != "sink" || canonCall(cl.Name) != name {
 			continue
 		}
 		hit = true
